@@ -19,4 +19,16 @@ CHECKS["C10"] = {
   "text": "int_to_tip: result is the Tip with value 2^(n-1) for 1<=n<=8, ValueError otherwise, for every int. prepare_aspirate_dispense_parameters: the returned tip field equals tipmask(tip) = sum over the eight tips of 2^(t-1)*[t is a member], for a Tip member, an int, lists of ints / Tip members of ANY length (loop invariant + finite-universe lemma for sum(set())), and mixed lists of length 2-3; every other type-case (0, 9, float, str, None, Tip.Any inside a collection) raises ValueError.",
   "note": "EVO script commands (evo_aspirate/evo_dispense/evo_wash tip_selection and slot order) are covered by the C13 contracts; the pair clause (both records of a transfer carry the same mask) by C07. sum(set(xs)) is modelled by the finite-universe identity over {1,2,4,..,128} (assumed library contract, side condition proved at the call site). bool tips are outside the universe.",
 }
+CHECKS["C08"] = {
+  "category": "proof",
+  "technique": "contract-based deductive verification: postconditions of the real numbering functions against the spec function pos(r,c) = 1 + c*rows + r over a symbolic well-formed labware; bijection lemmas by z3",
+  "text": "For every plate / trough geometry (rows 1..26, any number of columns) and every single-letter well id, the real EVO and Fluent get_well_position bodies are proved to return 1 + column_index*rows + row_index (virtual rows for EVO troughs; 1 + column_index for Fluent troughs), to agree with Labware._positions, and to raise ValueError for ids outside the labware; pos is proved a bijection onto 1..R*C with the stated inverse.",
+  "note": "Well ids are an algebraic abstraction wid(row index, column number); the regex / f-string / list.index / int() steps on such ids are assumed library contracts (conformance-tested natively). The labware is assumed well-formed (wf(L), established by the constructor contract, C20). Malformed strings and the no-record-on-unknown-well clause are covered by the operation contracts (C03) and the bounded stand-in.",
+}
+CHECKS["C12"] = {
+  "category": "proof",
+  "technique": "contract-based deductive verification: recursive function with decreases clause, nested loops with inductive invariants over ghost state, VCs from the real Python ast, z3 (strings + nonlinear integers)",
+  "text": "to_hex: hexval(result) == dec for every dec >= 0 (induction via the function's own contract, termination by decreases dec), exact digits for dec < 256. evo_get_selection: for all 1 <= rows, cols <= 255 and every 0/1 selection array the result equals the spec string hex2(cols) ++ hex2(rows) ++ evo_body(N div 7) ++ [partial group], where evo_body is defined by recursion (7 wells per character, column-major, LSB first, offset 48); length 4 + ceil(N/7). Both loops are cut by invariants (bit_counter = k mod 7, partial mask, completed groups) and proved for an arbitrary iteration.",
+  "note": "The decoder direction (decode(spec string) = selection, injectivity, padding bits zero) follows from the bit-wise definition of evo_body/partial_mask; it is additionally validated by the native replay clause and is not a separate SMT lemma. a | 2^k == a + 2^k for a < 2^k and chr/ord are library axioms. len(evo_body(j)) == j is proved by induction as a lemma. evo_make_selection_array is covered through C13.",
+}
 NOT_APPLICABLE = {}
